@@ -221,7 +221,9 @@ PROPS['C03'] = {
                  thm('EmmetProps.C03_merge_model', 'the CONCRETE model of merge_attributes (the function run against the code) = that specification, for every attribute list and option set'),
                  thm('EmmetProps.C03_other_attribute', 'any repeated attribute other than class: name (first position) kept, LAST value wins — the FIRST under reverseAttributes —, boolean / implied flags or-ed over all mentions'),
                  thm('EmmetProps.C03_class_attribute', 'class: the values of all mentions merged in the order written'),
-                 thm('EmmetProps.C03_class_words', 'class values that are plain words are joined by single spaces', partial=True)],
+                 thm('EmmetProps.C03_attribute_rendering', 'rendering of one attribute for EVERY option set without name map / value prefix: name in the configured case, value verbatim between the configured quotes (braces for expressions), boolean attribute without value = its own name or bare in compact form, any other empty value = a tabstop'),
+        thm('EmmetProps.C03_implied_dropped', 'an attribute is dropped exactly when it is implied (`!name`), not an expression and has no value'),
+        thm('EmmetProps.C03_class_words', 'class values that are plain words are joined by single spaces', partial=True)],
     'domains': ['dom_markup'],
     'rule': 'random elements with up to 8 mentions in any order (#id, .class, [name=value] quoted / unquoted / empty / valueless / boolean / implied / expression, repeated names incl. class and id through attribute sets) under 10 attribute-related configurations (quotes, case, compactBoolean, reverseAttributes, jsx, vue, xml, custom booleanAttributes); expected attribute list computed from the statement; non-trivial = at least two operators; distinct = distinct (abbreviation, config)',
     'explanation': 'The merge rules (order of first mention, class joined, last / first value wins, flags or-ed) are theorems about the concrete model of merge_attributes; parsing of attribute sets, flags, quoting and name mapping are decided by correspondence + oracle.',
@@ -233,11 +235,13 @@ PROPS['C03'] = {
 PROPS['C04'] = {
     'lean_targets': ['EmmetProps.C04'],
     'lean_imports': ['EmmetProps.C04'],
-    'theorems': [thm('EmmetProps.C04_text_tokens', 'for ANY run of inert tokens (literals, white space, operators, brackets, quotes): stringify_value returns the single string made of their characters and leaves the converter state unchanged', partial=True),
+    'theorems': [thm('EmmetProps.C04_wrap_lines', 'wrap clause on the converter model: `name*` with ANY list of lines (no repeat limit, < 10^6 non-blank lines) yields exactly one copy per non-blank line, in order, each holding that trimmed line as one verbatim string token; blank lines make no copy', partial=True),
+                 thm('EmmetProps.C04_wrap_statement', 'the same for convert_statement inside any converter state: copies for the non-blank lines, text marked inserted, one guard unit per copy', partial=True),
+                 thm('EmmetProps.C04_text_tokens', 'for ANY run of inert tokens (literals, white space, operators, brackets, quotes): stringify_value returns the single string made of their characters and leaves the converter state unchanged', partial=True),
                  thm('EmmetProps.C04_text_lexing', 'for ANY payload of the text grammar (ordinary characters incl. operators / brackets / quotes / *, \\c escapes, balanced inner braces; no unescaped $) not starting with white space: the tokenizer consumes exactly the payload up to the closing brace as ONE literal whose value is the payload with escapes resolved', partial=True)],
     'domains': ['dom_markup'],
     'rule': 'all well-formed text payloads up to length 2 (quick) / 3 (thorough) over the punctuation alphabet (operators, brackets, quotes, *, escapes) at 2 positions, random longer payloads with nested braces / escapes / unicode at 5 positions, and wrap-text cases: 8 abbreviation templates (with / without implicit repeater, $# in attributes and text) x random line lists drawn from abbreviation look-alikes, blanks, white-space-only lines; expected output computed from the statement; non-trivial = at least two operators; distinct = distinct (abbreviation, config)',
-    'explanation': 'Two theorems: lexing (any payload of the text grammar becomes one literal with the escapes resolved and the inner braces kept) and token-level verbatim stringification; placement before children, numbering / tabstops inside text and the wrap-text rules are decided by correspondence + oracle.',
+    'explanation': 'Wrap clause for the leaf `name*` (one copy per non-blank line holding the trimmed line) is a theorem on the converter model; lexing (any payload of the text grammar becomes one literal with the escapes resolved and the inner braces kept) and token-level verbatim stringification; placement before children, numbering / tabstops inside text and the wrap-text rules are decided by correspondence + oracle.',
     'level_text': 'Lean 4 theorems: lexing of any text payload (grammar: ordinary characters, escapes, balanced inner braces) into one literal token, and token-level verbatim stringification (text tokens are data; operators inert); placement and wrap-text rules: exhaustive-for-short-payload correspondence + statement-derived oracle (partial).',
     'level_note': 'Trusted: Lean kernel + standard axioms; tokenizer / convert models tied by correspondence.',
     'assumptions': [CORR],
